@@ -36,7 +36,7 @@ fn tera_file(x: i16, y: i16) -> [u8; 56] {
     b
 }
 
-//@unit props=C16 label=S tier=thorough fn=tera::Terrain::from_existing bound="one-plate terrain files of plate size 128, every i16 grid x (y fixed to -3)" stubs=fmt::format
+//@unit props=C16 label=S tier=parked fn=tera::Terrain::from_existing bound="one-plate terrain files of plate size 128, every i16 grid x (y fixed to -3)" stubs=fmt::format
 //@desc the real reader places plate (x, y) at 128*(x+0.5), 128*(y+0.5)
 #[kani::proof]
 #[kani::unwind(60)]
@@ -55,7 +55,7 @@ fn k_terrain_file_read() {
     kani::cover!(true, "reachable");
 }
 
-//@unit props=C16 label=S tier=thorough fn=tera::Terrain::write_to_buffer bound="one-plate terrains whose plate centre is 128*(x+0.5) for every i16 grid x (y fixed to -3)" stubs=fmt::format
+//@unit props=C16 label=S tier=quick fn=tera::Terrain::write_to_buffer bound="one-plate terrains whose plate centre is 128*(x+0.5) for every i16 grid x (y fixed to -3)" stubs=fmt::format
 //@desc the real writer stores the plate whose centre is 128*(x+0.5) at grid coordinate x again (56-byte file: header, 32 bytes of padding, coordinates)
 #[kani::proof]
 #[kani::unwind(60)]
